@@ -328,17 +328,51 @@ def compare_footprints(r, model_cells, flavour):
 
 
 def init_lines(rng, models, n_hom, hetero_models=('GR4J', 'Lag'), n_het=6):
+    """INIT <Model> n nSets seed mode;  mode 0: the state-length parameters are shared by the sets,
+    1: every set drawn independently (state lengths differ), 2: different values, SAME state length.
+    nSets in {1, n, 2, 3}, including counts that do not divide n."""
     lines = []
     for m in models:
         for _ in range(n_hom):
             n = rng.choice([1, 2, 3, 5, 8])
             lines.append(('hom', 'INIT %s %d %d %d 0' % (m, n, rng.choice([1, 2, 3, n]), rng.randrange(1 << 30))))
+    shapes = [(5, 2), (5, 3), (4, 2), (3, 3), (7, 3), (2, 2), (6, 1), (8, 3), (3, 2), (5, 5)]
     for m in hetero_models:
         if m in models:
-            for _ in range(n_het):
-                n = rng.choice([2, 3, 5])
-                lines.append(('het', 'INIT %s %d %d %d 1' % (m, n, n, rng.randrange(1 << 30))))
+            for k in range(n_het):
+                n, nSets = shapes[k % len(shapes)]
+                lines.append(('het', 'INIT %s %d %d %d 1' % (m, n, nSets, rng.randrange(1 << 30))))
+            for k in range(max(2, n_het // 2)):
+                n, nSets = shapes[(k * 3) % len(shapes)]
+                lines.append(('samelen', 'INIT %s %d %d %d 2' % (m, n, nSets, rng.randrange(1 << 30))))
     return lines
+
+
+def initmodel_line(r, n, nSets):
+    """the faithful model's InitialiseStates for the same parameter matrix (OCaml driver INITMODEL)"""
+    e = r['extra']
+    rows = ' '.join('%d %s' % (len(rw), ' '.join(rw)) for rw in e['set_rows_hex'])
+    return ('INITMODEL %s %d %d %d P %s ROWS %s' % (r['model'], n, nSets, e['nP'], ' '.join(e['p_hex']), rows)).replace('  ', ' ')
+
+
+def init_model_agrees(r, model_out):
+    """-> (agree?, description).  Implementation and model agree when both panic, or both return the
+    same matrix (extents and every element bit for bit)."""
+    e = r['extra']
+    t = model_out.split()
+    if not t or t[0] == 'PANIC':
+        return ('panic' in e), 'model: panic; code: %s' % ('panic' if 'panic' in e else 'matrix %s' % e.get('matrix'))
+    if t[0] != 'OK':
+        return False, 'model unavailable: ' + model_out[:80]
+    if 'panic' in e:
+        return False, 'model: matrix %s x %s; code: panic (%s)' % (t[1], t[2], e['panic'][:80])
+    dims, vals = [int(t[1]), int(t[2])], t[3:]
+    if dims != e.get('matrix'):
+        return False, 'model matrix %s, code matrix %s' % (dims, e.get('matrix'))
+    if vals != (e.get('matrix_hex') or []):
+        k = next(i for i, (a, b) in enumerate(zip(vals, e['matrix_hex'])) if a != b)
+        return False, 'matrix element %d (cell %d, state %d): model %s, code %s' % (k, k // max(dims[1], 1), k % max(dims[1], 1), h2f(vals[k]), h2f(e['matrix_hex'][k]))
+    return True, 'same %s matrix' % dims
 
 
 def coqchk(c, pid):
